@@ -35,6 +35,7 @@ type c09Result struct {
 	Class   string // type of the value / class of the condition
 	Text    string // printed value / message (truncated)
 	Micros  int64
+	Arity   bool   // the condition is an argument count error (statistics only)
 	Session int    // index (within the unit) of the first case run by the same worker process
 	Stderr  string // for D: what the dying worker wrote (first lines)
 	Exit    string // for D: exit status
@@ -50,6 +51,7 @@ type c09Engine struct {
 	// KillBudget: after this many deadline / memory-cap kills within one unit the rest of the unit
 	// is skipped (keeps the run time bounded when something hangs everywhere)
 	KillBudget int
+	KeepText   bool       // keep the value / message text of every result (default: faults and samples only)
 	parent     *c09Engine // set in the confirming copy: workers are started through the parent
 	jailSeq    atomic.Int64
 	starts     atomic.Int64
@@ -113,8 +115,13 @@ func (e *c09Engine) start() (*c09Proc, error) {
 	return e.startWith(e.Deadline)
 }
 
+// c09JailBase: the directory that holds the jail directories of this harness process.
+func c09JailBase(root string) string {
+	return filepath.Join(root, ".work", "c09-jail", fmt.Sprintf("p%d", os.Getpid()))
+}
+
 func (e *c09Engine) startWith(_ time.Duration) (*c09Proc, error) {
-	jail := filepath.Join(e.Root, ".work", "c09-jail", fmt.Sprintf("j%d-%d", os.Getpid(), e.jailSeq.Add(1)))
+	jail := filepath.Join(c09JailBase(e.Root), fmt.Sprintf("j%d", e.jailSeq.Add(1)))
 	_ = os.RemoveAll(jail)
 	if err := os.MkdirAll(jail, 0o777); err != nil {
 		return nil, err
@@ -312,10 +319,15 @@ func (e *c09Engine) runSome(cases []c09Case, res []c09Result, grace bool) int {
 				fmt.Fprintf(os.Stderr, "C09: malformed worker reply %q\n", l.line)
 				os.Exit(2)
 			}
+			r.Arity = r.Status == "C" && (strings.HasPrefix(r.Text, "Too few arguments") || strings.HasPrefix(r.Text, "Too many arguments"))
+			faulty := c09FaultKind(r) != ""
+			if !faulty && !grace && !e.KeepText && got%512 != 0 {
+				r.Text = "" // millions of results are kept: the text matters for faults and samples only
+			}
 			res[got] = r
 			got++
 			last = time.Now()
-			if !grace && c09FaultKind(r) != "" {
+			if !grace && faulty {
 				// an interpreter that has faulted is not trusted with further cases: the caller
 				// continues with a fresh worker
 				p.kill()
